@@ -43,10 +43,12 @@ func c19Instantiate(t *rapid.T, pattern string) string {
 			pattern = strings.Replace(pattern, "{"+name+"}", rapid.SampledFrom(values).Draw(t, name), 1)
 		}
 	}
-	rep("ledger", []string{"l1", "default", "_info", "_bulk", "transactions", "a-b_c", "x"})
-	rep("id", []string{"0", "1", "42", "abc", "18446744073709551616", "-1"})
-	rep("address", []string{"a", "users:001", "a:b:c", "world", "bad--addr"})
-	rep("key", []string{"k", "a-b", "x y"})
+	// percent-encoded separators and dots: routers that match on the encoded path and middlewares that look at
+	// the decoded one do not see the same segments
+	rep("ledger", []string{"l1", "default", "_info", "_bulk", "transactions", "a-b_c", "x", "team%2Fpay", "l1%2f", "%2e%2e", "l%201", "a%3Ab", "l1%3Fx"})
+	rep("id", []string{"0", "1", "42", "abc", "18446744073709551616", "-1", "0%2F1", "%30"})
+	rep("address", []string{"a", "users:001", "a:b:c", "world", "bad--addr", "users%3A001", "a%2Fb"})
+	rep("key", []string{"k", "a-b", "x y", "kyc%2Flevel", "k%2fx"})
 	pattern = strings.ReplaceAll(pattern, "/*", "/")
 	for strings.Contains(pattern, "//") {
 		pattern = strings.ReplaceAll(pattern, "//", "/")
@@ -183,7 +185,10 @@ func genBulkElem(t *rapid.T, i int) bulkElem {
 	}
 	switch shape {
 	case "CREATE_TRANSACTION":
-		if rapid.Bool().Draw(t, "scriptMode") {
+		if rapid.IntRange(0, 5).Draw(t, "bothModes") == 0 {
+			// postings and a script in one element: the bulk endpoint does not refuse it, the postings are used
+			e.Data = `{"postings":[{"source":"world","destination":"a","asset":"USD","amount":1}],"script":{"plain":"send [USD 2] (\n source = @world\n destination = @zz\n)","vars":{}},"metadata":{"el":"` + e.Marker + `"}}`
+		} else if rapid.Bool().Draw(t, "scriptMode") {
 			e.Data = `{"script":{"plain":"send [USD 1] (\n source = @world\n destination = @a\n)","vars":{}},"metadata":{"el":"` + e.Marker + `"}}`
 		} else {
 			e.Data = `{"postings":[{"source":"world","destination":"a","asset":"USD","amount":1}],"metadata":{"el":"` + e.Marker + `"},"reference":"r` + e.Marker + `"}`
